@@ -1,12 +1,13 @@
 import FlowRecordProofs.Lemmas.Descriptor
 import FlowRecordProofs.Lemmas.Assoc
+import FlowRecordProofs.Lemmas.Render
 /-!
 C06 — descriptor names are validated; untrusted definitions cannot inject code.
 Property theorems only. Strings are lists of code points (`Str`), so "for all strings" includes control
 characters, non-ASCII look-alikes and lone surrogates. The regular expressions, the whitelist, the reserved
 fields and the keyword list are the ones extracted from the current source (`Gen`).
 -/
-open FlowRecord FlowRecord.Descriptor FlowRecord.Rx
+open FlowRecord FlowRecord.Descriptor FlowRecord.Rx FlowRecord.Render
 
 /-- `RE_VALID_FIELD_NAME.match(s)` for ALL strings: an optional single underscore, then an ASCII identifier
     that starts with a letter — optionally followed by ONE final newline (Python's `$`, made explicit). -/
@@ -349,6 +350,32 @@ theorem C06_fields_exact (d : Desc) (sl : List Str) (h : (construct d).2 = .ok s
   have main : slots d = firstOcc (d.fields.map (·.2)) ++ reservedNames := keys_allFields d hnores
   exact ⟨main, fun hnd => by rw [main, firstOcc_nodup_eq _ hnd]⟩
 
+/-- THE TEXT HANDED TO `exec` IS THE TEMPLATE FILLED WITH IDENTIFIERS. For an accepted definition the rendered class
+    source is the shape-only template (a function of the number of slots and of "some field is a keyword" alone)
+    instantiated with the slot names and the class name — each a non-empty string of `[A-Za-z0-9_]` —, the final tab
+    replacement touching literal template text only. (That `render` is the text `exec` receives is checked on every
+    run by capturing it from the real code.) -/
+theorem C06_render_is_template (d : Desc) (h : accepts d = true) :
+    render d = inst (envOf (slots d)) (className d.name)
+      ((tmplOf (slots d).length (containsKeyword d)).map tabTok) ∧
+    good (className d.name) ∧ ∀ i, good (envOf (slots d) i) := by
+  obtain ⟨hname, hfields⟩ := C06_accepted_only_if d h
+  have henv := envOf_good d (fun f hf => (hfields f hf).1)
+  have hcls := className_good d.name hname
+  exact ⟨replaceTabs_inst _ _ henv hcls _, hcls, henv⟩
+
+/-- NO CODE CAN BE INJECTED THROUGH A DEFINITION: two accepted definitions of the same shape (same number of slots,
+    same keyword path) — e.g. a hostile one and the same shape with canonical identifiers — give sources with the SAME
+    skeleton: outside maximal runs of `[A-Za-z0-9_]` the two texts are identical character by character. No quote,
+    bracket, colon, dot, newline, space, `#`, … can come from a definition. -/
+theorem C06_render_skeleton (d d' : Desc) (h : accepts d = true) (h' : accepts d' = true)
+    (hshape : (slots d).length = (slots d').length ∧ containsKeyword d = containsKeyword d') :
+    skel false (render d) = skel false (render d') := by
+  obtain ⟨e, hcls, henv⟩ := C06_render_is_template d h
+  obtain ⟨e', hcls', henv'⟩ := C06_render_is_template d' h'
+  rw [e, e', hshape.1, hshape.2]
+  exact skel_inst _ _ _ _ henv henv' hcls hcls' _ false
+
 /-- The source has the shape the model transcribes: order of the tests in `is_valid_field_name`,
     `RecordField.__init__`, `fieldtype()` (whitelist test before `import_module`/`getattr`) and
     `_generate_record_class` (all validation before `exec`), a single `exec(code, _globals)`. Re-decided on every
@@ -369,7 +396,10 @@ theorem C06_source_shape :
        "mod = importlib.import_module(module_path)"] ∧
     Gen.genClassOrder = ["is_valid_field_name", "RecordField", "RE_VALID_RECORD_TYPE_NAME.match", "name.replace",
        "RECORD_CLASS_TEMPLATE.format", "exec"] ∧
-    Gen.genClassExecCall = "exec(code, _globals)" ∧ Gen.descriptorInitFirstTest = "not name" := by
+    Gen.genClassExecCall = "exec(code, _globals)" ∧ Gen.descriptorInitFirstTest = "not name" ∧
+    Gen.genClassKeywordTest = "len(all_fields) >= 255 and (not sys.version_info >= (3, 7)) or contains_keyword" ∧
+    Gen.tplReplaceFrom = "\t" ∧ Gen.execGlobals = ["Record", "RECORD_VERSION", "_utcnow", "_zip_longest"] ∧
+    Gen.execGlobalFieldPrefix = "_field_" := by
   decide
 
 /-- Whitelist entries and reserved names are themselves well-formed (sanity of the extracted tables): every
@@ -397,4 +427,6 @@ example : (construct ⟨cps "t", [(cps "string", cps "a"), (cps "varint", cps "a
     .ok [cps "a", cps "_source", cps "_classification", cps "_generated", cps "_version"] := by decide
 example : isValidFieldName (cps "ｎame") true = false := by decide   -- fullwidth look-alike
 example : isValidFieldName [97, 0xDC80] true = false := by decide     -- lone surrogate
+example : skel false (render good) = skel false (render ⟨cps "x", [(cps "string", cps "a"), (cps "varint[]", cps "b"), (cps "net.ipaddress", cps "if")]⟩) := by
+  apply C06_render_skeleton <;> decide
 end C06_nonvacuous
